@@ -521,49 +521,34 @@ def ms9(p, res):
             ln = sym.operand(t["a"][1])
             end = off + ln
             cap = Poly.atom(("f", "len", (Poly.atom(("p", base, ())).key(),)))
-            # arithmetic facts
-            subst = {}
-            for b2, t2 in f.calls():
-                cn = (f.callee_def(t2) or {}).get("n")
-                if cn == "checked_sub" and len(t2["a"]) == 2:
-                    a_, b_ = sym.operand(t2["a"][0]), sym.operand(t2["a"][1])
-                    payload = None
-                    for pl in (("0",), ("Some", "0"), ()):
-                        cand = Poly.atom(("call", f.uid, b2, pl)) if pl else Poly.atom(("call", f.uid, b2))
-                        if repr(cand) in repr(end) or cand.key() in [Poly.atom(x).key() for x in end.atoms()]:
-                            payload = cand
-                            break
-                    if payload is None:
-                        payload = Poly.atom(("call", f.uid, b2, ("0",)))
-                    subst[a_.key()] = payload + b_
-            def expand(poly, depth=0):
-                out = Poly()
-                for mono, c in poly.t.items():
-                    term = Poly.const(c)
-                    for a in mono:
-                        ak = Poly.atom(a).key()
-                        if ak in subst and depth < 4:
-                            term = term * expand(subst[ak], depth + 1)
-                        elif a[0] == "f" and a[1] == "saturating_sub" and len(a[2]) == 2 and depth < 4:
-                            # x = saturating_sub(x, y) + y  is used the other way round: keep the atom, it is replaced through `subst` of its own key
-                            term = term * Poly.atom(a)
-                        else:
-                            term = term * Poly.atom(a)
-                    out = out + term
-                return out
-            # capacity: len(data) = saturating_sub(len(data), y) + y for the saturating_sub atom that has len(data) as its first argument
-            cap_expr = cap
-            for a in list(end.atoms()) + [x for v in subst.values() for x in v.atoms()] + [x for k in subst for (mono, c) in k for x in mono]:
-                if a[0] == "f" and a[1] == "saturating_sub" and len(a[2]) == 2 and a[2][0] == cap.key():
-                    y = Poly(dict(a[2][1]))
-                    cap_expr = Poly.atom(a) + y
-            d = expand(cap_expr) - expand(end)
-            if d.nonneg_coeffs():
-                res.ok("MS-9", {"fn": f.pretty, "site": f.where(t["l"]), "offset": repr(off), "len": repr(ln), "capacity_minus_end": repr(d)})
-            else:
+            # decided on the extracted expressions with the real semantics of saturating_sub / checked_sub (pwl.Eval): the end of the slice must not exceed
+            # the buffer on any valuation on which the carver does not take its panic exit
+            from . import pwl
+            bad = None
+            good = 0
+            for val in pwl.valuations(count=4000, hi=200):
+                ev = pwl.Eval(p, val)
+                ev.syms[f.uid] = sym
+                try:
+                    e_, c_ = ev.poly(end), ev.poly(cap)
+                    # the path on which the slices are built requires the checked_sub to succeed: evaluate every checked_sub of the function
+                    for b2, t2 in f.calls():
+                        if (f.callee_def(t2) or {}).get("n") == "checked_sub":
+                            ev.atom(("call", f.uid, b2))
+                except pwl.ErrPath:
+                    continue
+                good += 1
+                if e_ > c_ and bad is None:
+                    bad = dict((k, v) for k, v in ev.val.items() if k != "__fresh__")
+                    bad = {"end": e_, "capacity": c_, "valuation": {k[:60]: v for k, v in bad.items()}}
+            if good < 300:
+                res.undec("MS-9", "%s: only %d admissible valuations" % (f.pretty, good))
+            elif bad:
                 res.bad("MS-9", f.pretty, "carved-slice-exceeds-buffer",
-                        "%s builds a sub-slice at offset `%r` with `%r` bytes; capacity minus end = `%r` is not provably non-negative: the slice can reach past the buffer it was carved from"
-                        % (f.pretty, off, ln, d), site=f.where(t["l"]))
+                        "%s builds a sub-slice at offset `%r` with `%r` bytes that ends at %d in a buffer of %d bytes for %s: the pointer arithmetic leaves the buffer it was carved from "
+                        "(saturating_sub hides an alignment offset larger than what is left)" % (f.pretty, off, ln, bad["end"], bad["capacity"], bad["valuation"]), site=f.where(t["l"]), detail=bad)
+            else:
+                res.ok("MS-9", {"fn": f.pretty, "site": f.where(t["l"]), "offset": repr(off), "len": repr(ln), "valuations": good})
     return n
 
 
